@@ -164,7 +164,8 @@ def expected(qast: Dict[str, Any], doc: Any, limit: int, work_cap: int = 2_000_0
         else:
             max_nest = max([nesting(v) for _l, v in nodes] or [0])
             # a scalar input node is "visited" at depth 1 too
-            status, nodes, work = descend(seg, nodes, limit, work_cap)
+            status, nodes, w = descend(seg, nodes, limit, work_cap)
+            work += w
             want_raise = max_nest > limit
             if status == "work-cap":
                 return {"status": "unknown", "work": work, "max_nesting": max_nest}
